@@ -25,7 +25,7 @@ META = {
 LEVEL = META['level']
 RULE = ('a case = one hostile connection (valid prefix + hostile bytes + EOF) judged by all monitors; distinct by the hostile bytes; non-trivial = the input is not a valid unmodified frame sequence')
 ASSUMPTIONS = ['step budget = 50 x (worst steps per byte over valid frames) x input length + 20000', 'a write is "acknowledged" by a status-0 reply of service 0xCD / 0xD3 / 0x90, alone or inside an 0x8A bundle reply']
-REQUIRED = ['live:connection-reset', 'inputs', 'class:random-bytes', 'class:bitflip', 'class:span-edit', 'class:truncated', 'class:length-field', 'class:bundle-offsets', 'class:sequence',
+REQUIRED = ['class:consistent-truncation', 'live:connection-reset', 'inputs', 'class:random-bytes', 'class:bitflip', 'class:span-edit', 'class:truncated', 'class:length-field', 'class:bundle-offsets', 'class:sequence',
             'end:error', 'end:closed-by-server', 'end:eof', 'monitor:step-budget', 'monitor:state-oracle', 'monitor:canary-long-lived', 'monitor:canary-fresh',
             'live:inputs', 'live:listener-accepts', 'live:thread-count-stable', 'state-changed-with-acknowledged-write']
 TIMEOUT = {'quick': 300, 'thorough': 2400}
@@ -65,6 +65,31 @@ def valid_frames(rng, session):
 
 
 LEN_VALUES = [0, 1, 2, 3, 4, 7, 8, 0x7F, 0x80, 0xFE, 0xFF]
+
+
+def consistent_truncations(session=77):
+    """Innermost CIP requests cut at every offset while every enclosing layer stays consistent (Unconnected Send length and pad, CPF item
+    length, encapsulation length, bundle offsets): the input then starves a parser state *inside* a length-limited region whose
+    limit has not been reached -- a different place from where a truncated frame or an inconsistent length field fails."""
+    from vlib import refcodec as rc
+    bases = [{'path': {'segment': [{'symbolic': 'H'}]}, 'read_tag': {'elements': 2}},
+             {'path': {'segment': [{'symbolic': 'TAG'}]}, 'read_tag': {'elements': 1}},
+             {'path': {'segment': [{'symbolic': 'H'}, {'element': 1}]}, 'write_tag': {'type': 0xC4, 'elements': 2, 'data': [5, 6]}},
+             {'path': {'segment': [{'symbolic': 'G'}, {'element': 300}]}, 'read_frag': {'elements': 2, 'offset': 0}},
+             {'path': {'segment': [{'class': 0x93}, {'instance': 1}, {'attribute': 2}]}, 'get_attribute_single': True},
+             {'path': {'segment': [{'class': 0x400}, {'instance': 1}, {'attribute': 300}]}, 'set_attribute_single': {'data': [1, 2, 3, 4]}}]
+    good = rc.enc_request({'path': {'segment': [{'symbolic': 'H'}]}, 'read_tag': {'elements': 1}})
+    out = []
+    for req in bases:
+        cip = rc.enc_request(req)
+        for cut in range(1, len(cip)):
+            part = cip[:cut]
+            out.append(rc.rr_frame(rc.enc_unconnected_send(part), session, b'CTRUNC%02d' % (cut % 100)))
+            out.append(rc.rr_frame(part, session, b'CTRUNB%02d' % (cut % 100)))
+            # as first member of a bundle whose table is consistent with the shortened member
+            body = struct.pack('<HHH', 2, 6, 6 + len(part)) + part + good
+            out.append(rc.rr_frame(rc.enc_unconnected_send(bytes([0x0A, 0x02, 0x20, 0x02, 0x24, 0x01]) + body), session, b'CTRUNM%02d' % (cut % 100)))
+    return out
 
 
 def mutate(rng, frame):
@@ -204,12 +229,19 @@ def in_process(ctx, rng, budget_s):
         def budget(n):
             return int(50 * worst * max(n, 24) + 20000)
         k = 0
-        while time.monotonic() < t_end and not ctx.expired():
+        pending = consistent_truncations() if ctx.shard == 0 else []
+        if ctx.shard != 0:
+            pool = consistent_truncations()
+            pending = [rng.choice(pool) for _ in range(40)]
+        while (time.monotonic() < t_end and not ctx.expired()) or pending:
             k += 1
             addr = ('10.2.%d.%d' % (k // 250 % 250, k % 250), 40000 + k % 20000)
             frames = valid_frames(rng, 77)
             r = rng.random()
-            if r < 0.2:
+            if pending:
+                hostile = pending.pop()
+                label = 'consistent-truncation'
+            elif r < 0.2:
                 n = rng.choice([1, 2, 4, 23, 24, 25, 28, 60, 200, 1000, 5000])
                 hostile = bytes(rng.randrange(256) for _ in range(n))
                 if rng.random() < 0.5 and n >= 4:
